@@ -734,6 +734,10 @@ fc_statements = [
             "type(C_PTR), intent(OUT) :: {f_var}",
         ],
     ),
+    dict(
+        name="f_void_*&_out",
+        base="f_void_**_out",
+    ),
     
     # Function has a result with deref(allocatable).
     #
@@ -837,6 +841,7 @@ fc_statements = [
     ),
     dict(
         name="f_native_*_result_raw",
+        f_module=dict(iso_c_binding=["C_PTR"]),
         arg_decl=[
             "type(C_PTR) :: {f_var}",
         ],
@@ -845,6 +850,7 @@ fc_statements = [
         # int **func(void)
         # regardless of deref value.
         name="f_native_**_result",
+        f_module=dict(iso_c_binding=["C_PTR"]),
         arg_decl=[
             "type(C_PTR) :: {f_var}",
         ],
